@@ -168,6 +168,8 @@ impl QueryTask {
         let mut batch_results = BTreeMap::<usize, BatchResult>::new();
         let mut explains = Vec::new();
         while let Some((partition, id)) = self.next_partition() {
+            #[cfg(locustdb_verif)]
+            crate::verif::gate("query:before_partition", &format!("{}", id));
             let show = self.show.contains(&id);
             let cols =
                 partition.get_cols(&self.referenced_cols, &self.db, self.perf_counter.as_ref());
